@@ -1,7 +1,8 @@
 #!/bin/bash
 # tools/seedregress.sh [budget] [filter] : re-run every kept seeded change against the first check that is recorded to catch it
 BUD=${1:-20}; FILT=${2:-}
-cd /verif
+V=$(cd "$(dirname "$0")/.." && pwd)
+cd $V
 for d in seeded/*${FILT}*/; do
   id=$(basename $d)
   prop=$(python3 -c "import json; m=json.load(open('$d/meta.json')); print((m.get('caught_by') or ['?'])[0])")
@@ -13,4 +14,4 @@ for d in seeded/*${FILT}*/; do
   echo "$id: $prop rc=$rc $(echo "$out" | grep -v '^KNOWN-FINDING' | sed -n 2p | cut -c1-100)"
   git -C /repo worktree remove --force $WT
 done
-git -C /verif checkout -- evidence 2>/dev/null; rm -f /verif/replays/*.json
+git -C $V checkout -- evidence 2>/dev/null; rm -f $V/replays/*.json
